@@ -66,6 +66,19 @@ Qed.
 Print Assumptions C12_source.
 Definition C12_source_skeleton := lsml_skeleton_ok.
 
+(* the whole translated _gradient (prior_inv - M^-1, then one pass of the translated loop body per violated constraint) acts on every
+   vector as the model's gradient P - M^-1 + sum over the violated constraints of their weighted terms, for every metric, prior
+   inverse, weights and quadruplets - not only when no constraint is violated *)
+Definition C12_gradient_source_stmt : Prop :=
+  forall d (w : Rv) (Minv M vab vcd P : Rm) (x : Rv),
+    wfmR d d M -> wfmR d d P -> wfmR d d Minv -> Forall (wfvR d) vab -> Forall (wfvR d) vcd ->
+    length w = length vab -> length vab = length vcd -> wfvR d x ->
+    mvmulR (@lsml_gradient ROps w Minv M vab vcd P) x = mvmulR (@gradient ROps d M P Minv (zipq w vab vcd)) x.
+
+Theorem C12_gradient_source : C12_gradient_source_stmt.
+Proof. exact src_gradient_action. Qed.
+Print Assumptions C12_gradient_source.
+
 (* the descent loop of _fit as TRANSLATED on this run (what is kept from one candidate step to the next: `if cur_s < s_best`, and
    from one iteration to the next: `if M_best is None: break`, `M = M_best`), with the candidates (step, eigen-decomposition,
    floor, loss) as oracle values: it is the model's loop, so for ANY candidates the loss it ends with is never above the one it
